@@ -82,6 +82,8 @@ def run(ctx):
     S1 = rep.rule('C01.R1', 'no stored value is dropped (replaced / removed) while only a shared borrow of the cache is held (shared with C01)', floor=8)
     S3 = rep.rule('C01.R3', 'destroying map operations need &mut self (shared with C01)', floor=4)
     S8 = rep.rule('C07.R6', 'a reference mapped out of a read guard cannot outlive the guard (and so cannot reach a value a reload drops): the closures of AssetReadGuard::map / try_map are higher-ranked (shared with C07)', floor=2)
+    S9 = rep.rule('C08.R4', 'the map lent to the reloader thread as a raw pointer stays alive while it is used: hot_reload blocks, without a time limit, until its own request was answered (shared with C08)', floor=4)
+    S10 = rep.rule('C08.R2', 'every raw Condvar wait sits in the predicate loop of Condvar::wait_while: no timed wait lets hot_reload return early (shared with C08, wait clauses)', floor=2)
     from c01 import r1 as no_destroy_under_shared_borrow
     from c07 import r6 as mapped_ref_stays_in_guard
     for cfg, F in ctx.cfgs():
@@ -101,7 +103,10 @@ def run(ctx):
             value_access_discipline(S4, cfg, F, True)
             writer_region(S5, S6, cfg, F)
             write_needs_dynamic(S7, cfg, F)
-            for r in (S4, S5, S6, S7):
+            from c08 import r4 as waits_for_own_answer, r2 as condvar_protocol
+            waits_for_own_answer(S9, cfg, F)
+            condvar_protocol(S10, cfg, F, only_waits=True)
+            for r in (S4, S5, S6, S7, S9, S10):
                 r.finish_cfg(cfg)
         r3(R3, cfg, F, hr)
         R3.finish_cfg(cfg)
